@@ -31,7 +31,7 @@ import (
 func (s *swamp) GetOrBuildBucket(fieldPath string) bucket.Bucket {
 	s.bucketsMu.RLock()
 	if s.buckets != nil {
-		if b, ok := s.buckets[fieldPath]; ok && b.EqualityInitialized() {
+		if b, ok := s.buckets[fieldPath]; ok && b.EqualityInitialized() && !b.BuildInFlight() {
 			s.bucketsMu.RUnlock()
 			return b
 		}
@@ -59,6 +59,11 @@ func (s *swamp) GetOrBuildBucket(fieldPath string) bucket.Bucket {
 		if verifhook.Enabled {
 			verifhook.Point("bucket.built", fieldPath)
 		}
+	}
+	// Built, but the buffer of the build may not be drained yet (this caller is
+	// the builder, or a reader that came between BuildEquality and the
+	// builder's drain): nobody is served before the buffered mutations are in.
+	if b.BuildInFlight() {
 		_ = b.DrainPending()
 	}
 	return b
